@@ -52,9 +52,23 @@ def main():
         meta["confirmed"] = bool(meta["applies"] and meta["tests_at_baseline"] and rc1 != 0 and rc2 == 0)
     finally:
         sh("git -C /repo worktree remove --force %s" % wt)
-    # run my checks against /repo with the patch applied
+    # run my checks against the patched tree: /repo itself with the patch applied and undone straight afterwards, or
+    # (INTAKE_SCRATCH=1, used while a background job is reading /repo) a second scratch worktree handed over with --repo
     meta["checks"] = {}
-    if meta.get("confirmed"):
+    if meta.get("confirmed") and os.environ.get("INTAKE_SCRATCH"):
+        wt2 = tempfile.mkdtemp(prefix="intake-", dir="/tmp")
+        os.rmdir(wt2)
+        sh("git -C /repo worktree add -q --detach %s HEAD" % wt2)
+        try:
+            rc, out = sh("git apply %s/patch.diff" % dst, cwd=wt2)
+            for c in checks:
+                rc, out = sh("./check %s --repo %s --mutant-mode --no-minimise" % (c, wt2), cwd=VERIF)
+                first = [l for l in out.splitlines() if l.startswith(("VIOLATION", "  oracle", "  variant", "HARNESS"))][:3]
+                meta["checks"][c] = {"exit": rc, "caught": rc == 1, "lines": first}
+        finally:
+            sh("git -C /repo worktree remove --force %s" % wt2)
+        meta["ran"].append("scratch worktree of /repo HEAD + patch.diff; ./check <id> --repo <worktree> --mutant-mode for %s" % ",".join(checks))
+    elif meta.get("confirmed"):
         rc, out = sh("git -C /repo status --porcelain")
         if out.strip():
             print("REFUSING: /repo has uncommitted changes:\n" + out)
